@@ -39,6 +39,16 @@ var solvers = []solverSpec{
 	{"z3", func(f string, t time.Duration) []string {
 		return []string{"z3", fmt.Sprintf("-T:%d", int(t.Seconds())+1), f}
 	}},
+	// retry stage: other random seeds and quantifier settings
+	{"z3-new-seed7", func(f string, t time.Duration) []string {
+		return []string{"z3-new", "smt.random_seed=7", "sat.random_seed=7", fmt.Sprintf("-T:%d", int(t.Seconds())+1), f}
+	}},
+	{"z3-new-rel0-seed13", func(f string, t time.Duration) []string {
+		return []string{"z3-new", "smt.relevancy=0", "smt.random_seed=13", fmt.Sprintf("-T:%d", int(t.Seconds())+1), f}
+	}},
+	{"z3-new-eager", func(f string, t time.Duration) []string {
+		return []string{"z3-new", "smt.qi.eager_threshold=100", fmt.Sprintf("-T:%d", int(t.Seconds())+1), f}
+	}},
 }
 
 func runSolver(ctx context.Context, sp solverSpec, file string, timeout time.Duration) (string, string, float64) {
@@ -165,9 +175,10 @@ func solveAll(obls []*Obligation, dir string, timeout time.Duration, all bool, p
 			defer wg.Done()
 			defer func() { <-sem }()
 			r := solveOne(o, dir, timeout, all, order)
-			if (r.Verdict == "timeout" || r.Verdict == "error") && !all && !o.Canary {
-				// one retry with a longer limit before anything is called a failure
-				r2 := solveOne(o, dir, 2*timeout, false, order)
+			if r.Verdict != "unsat" && r.Verdict != "sat" && !all && !o.Canary {
+				// one retry with a longer limit and other solver configurations before
+				// anything is called a failure
+				r2 := solveOne(o, dir, 3*timeout, false, []int{0, 1, 2, 4, 5, 6})
 				if r2.Verdict == "unsat" || r2.Verdict == "sat" {
 					r = r2
 				}
